@@ -186,6 +186,12 @@ func (e *arrEnv) dPhase() {
 
 // health: C09 - the storage holds exactly the slabs of the one live array (everything handed back has been disposed of).
 func (e *arrEnv) health() {
+	// a storage the reference checker cannot even walk (it panics on a slab object left behind in an invalid state) is not healthy
+	defer func() {
+		if r := recover(); r != nil {
+			e.violation("C09", fmt.Sprintf("CheckStorageHealth (one root expected) panicked: %v", r))
+		}
+	}()
 	roots, err := atree.CheckStorageHealth(e.ps, 1)
 	if err != nil {
 		e.violation("C09", "CheckStorageHealth (one root expected): "+err.Error())
